@@ -495,14 +495,18 @@ class SymEval:
             for n in ast.walk(target):
                 if isinstance(n, ast.Name):
                     tnames.add(n.id)
-        carried = sorted(n for n in names - tnames if n in frame.env)
+        # a local list / set that the body both grows and reads (xs.append(f(xs[-1]))): what a read sees depends on the iteration, so it
+        # is carried like a rebound name (and not summarised as the comprehension of what is appended)
+        forced = sorted(n for n in _grown_and_read(st.body) - tnames if n in frame.env and frame.env[n][0] in ("list", "accum", "comp", "call"))
+        carried = sorted(set(n for n in names - tnames if n in frame.env) | set(forced))
+        names = set(names) | set(forced)
         carried_attrs = sorted(attrs)
         # pass 1 (discarded): find which syntactically assigned names/attributes really change on a live path
         # (assignments under constant-false conditions do not make a name loop-carried)
         snap = (len(self.events), dict(frame.env), dict(self.heap), self.live, dict(self.loops), dict(self.closures))
         lid = self.uid()
         info = self._loop_pass(lid, kind, st, frame, iter_term, target, cond_ast, carried, carried_attrs, proj)
-        really = [n for n in carried if info.env_out.get(n) != info.env_in.get(n)]
+        really = [n for n in carried if info.env_out.get(n) != info.env_in.get(n) or n in forced]
         really_attrs = [(d, a) for d, a in carried_attrs if self.heap.get((T.sym(d), a)) != T.sym(f"loop{lid}:{d}.{a}")]
         if really != carried or really_attrs != carried_attrs:
             del self.events[snap[0]:]
@@ -2151,6 +2155,22 @@ def _search_loop(loop: ast.For, after: ast.stmt):
     ast.copy_location(ret, loop)
     ast.fix_missing_locations(ret)
     return ret
+
+
+def _grown_and_read(body) -> set:
+    """Names X with `X.append(..)` / `.extend` / `.add` / `.insert` in the statements and another read of X in them."""
+    grown, recv_nodes = set(), set()
+    for s_ in body:
+        for n in ast.walk(s_):
+            if isinstance(n, ast.Call) and isinstance(n.func, ast.Attribute) and n.func.attr in ("append", "extend", "add", "insert", "appendleft") and isinstance(n.func.value, ast.Name):
+                grown.add(n.func.value.id)
+                recv_nodes.add(id(n.func.value))
+    read = set()
+    for s_ in body:
+        for n in ast.walk(s_):
+            if isinstance(n, ast.Name) and isinstance(n.ctx, ast.Load) and n.id in grown and id(n) not in recv_nodes:
+                read.add(n.id)
+    return read
 
 
 def _kw_literal(v: Term):
